@@ -15,7 +15,7 @@ import (
 func init() {
 	register(&Property{
 		ID:        "C05",
-		Technique: "typestate over the reader loop and the writer sink, non-nil provenance of termination causes, restricted result-use check on the transport-facing API, who-may-access; tested-then-dropped error (contradiction) check and interprocedural lock-pairing check over the packages the property is anchored in; error-filter (error→error) return analysis",
+		Technique: "typestate over the reader loop and the writer sink, non-nil provenance of termination causes, restricted result-use check on the transport-facing API, who-may-access, guard dominance for calls through optional func-typed fields; tested-then-dropped error (contradiction) check and interprocedural lock-pairing check over the packages the property is anchored in; error-filter (error→error) return analysis",
 		Explanation: "Structural conditions of 'a transport failure is contained': " +
 			"(R1) every read error and every packet-handling error in the reader loop terminates the manager and ends the loop; the loop announces its exit by a first-registered defer; " +
 			"(R4) the writer drops its buffer after every sink write and returns the sink's error; " +
